@@ -47,6 +47,52 @@ theorem replay_eq_live (hiv : A.initVersion ≤ 1) (ops : List (Op A)) (i : Nat)
   · exact key _ (hI.clearForScratch) 0
   · exact key _ (hI.clearCaches) 0
 
+/-- **replay_eq_live_krill_usage.**  The equality survives ANY interleaving of commands
+(accepted, rejected, no-op, vetoed), failed writes, snapshots, cache drops, history queries,
+deletion and re-creation of the entity, through any number of store objects, under exactly
+krill's usage assumption, stated as the decidable predicate `dropSafeB` on histories: whenever
+`drop_aggregate` is called, no *other* store object remembers the entity (it can only clear
+the caches of the store object it is called on).  Nothing else is assumed. -/
+theorem replay_eq_live_krill_usage (hiv : A.initVersion ≤ 1) (ops : List (HOp A))
+    (hu : dropSafeB (Ent.empty : Ent A) ops = true) (i : Nat) :
+    let e := runH (Ent.empty : Ent A) ops
+    loadScratch e = expected (specRunH [] ops) ∧
+    loadFresh e = expected (specRunH [] ops) ∧
+    (getLatest e i).2 = expected (specRunH [] ops) := by
+  intro e
+  have hI : Inv e (specRunH [] ops) := runH_refines hiv inv_empty ops (dropSafe_of_B hu)
+  have key : ∀ e' : Ent A, Inv e' (specRunH [] ops) → ∀ j, (getLatest e' j).2 = expected (specRunH [] ops) := by
+    intro e' h' j
+    by_cases hne : specRunH ([] : Log A) ops = []
+    · rw [hne] at h' ⊢
+      simp [getLatest, execOpt_nil h', expected, finalOf, baseOf]
+    · obtain ⟨w, hw, h1, _⟩ := execOpt_read hiv h' hne j false false
+      simp [getLatest, h1, expected, hw]
+  exact ⟨key _ hI.clearForScratch 0, key _ hI.clearCaches 0, key e hI i⟩
+
+/-- The usage assumption is needed (modelled quirk): a second store object that still caches a
+deleted entity goes on serving it – and writes the next command into the deleted scope. -/
+theorem drop_needs_usage_assumption :
+    let ops : List (HOp (Reg.regAgg 1)) :=
+      [.op (.add 0 "a" "n0" false), .op (.get 1), .drop 0, .op (.cmd 1 ⟨"u", .add 1⟩ false)]
+    dropSafeB (Ent.empty : Ent (Reg.regAgg 1)) ops = false ∧
+    (match (getLatest (runH (Ent.empty : Ent (Reg.regAgg 1)) ops) 1).2 with
+      | .ok v => some v.version | _ => none) = some 2 ∧
+    (match loadFresh (runH (Ent.empty : Ent (Reg.regAgg 1)) ops) with
+      | .unknown => true | _ => false) = true := by
+  decide
+
+/-- Non-vacuity: a history with a failed write, a snapshot by a second store object, a cache
+drop, deletion (the other store objects re-created first, as krill's throw-away stores are) and
+re-creation satisfies the usage predicate. -/
+example :
+    dropSafeB (Ent.empty : Ent (Reg.regAgg 1))
+      [.op (.add 0 "a" "n0" false), .op (.cmd 0 ⟨"u", .add 2⟩ true), .op (.cmd 0 ⟨"u", .add 2⟩ false),
+       .op (.snap 1 false), .op (.cmd 2 ⟨"v", .fail⟩ false), .op (.hist 0 true),
+       .op (.restart 1), .op (.restart 2), .drop 0,
+       .op (.add 1 "a" "n1" false), .op (.cmd 0 ⟨"w", .add 1⟩ false)] = true := by
+  decide
+
 /-- The oracle's `replay_eq_live` predicate (`Obs.allAgree` over the results of every live store
 object, a fresh store and a from-scratch replay, as printed by `check <h>`) holds of the model
 after every history, for every renderer of results. -/
@@ -206,6 +252,20 @@ theorem wal_replay_eq_live (ops : List (Wal.Op T)) (hs : SafeRun ({} : Wal.Ent T
   · have ha' : Absent { e with cache := [] } := ⟨ha.1, ha.2.1, fun _ => rfl⟩
     simp [Wal.loadFresh, Wal.getLatest, execOpt_absent ha, execOpt_absent ha']
   · simp [Wal.loadFresh, Wal.getLatest, (execOpt_get hc i).1, (execOpt_get hc.clearCache 0).1]
+
+/-- The same with the usage assumption as the decidable predicate `safeRunB` on histories. -/
+theorem wal_replay_eq_live_krill_usage (ops : List (Wal.Op T))
+    (hu : safeRunB ({} : Wal.Ent T) ops = true) (i : Nat) :
+    Wal.loadFresh (Wal.run ({} : Wal.Ent T) ops) = (Wal.getLatest (Wal.run ({} : Wal.Ent T) ops) i).2 :=
+  wal_replay_eq_live ops (safeRun_of_B hu) i
+
+/-- **wal_snapshot_safe_iff.**  The side condition is exactly what is needed, not merely
+sufficient: on an existing WAL entity, after `update_snapshot` through store object `i` every
+store object still returns the current value if and only if every other store object was up
+to date when the snapshot (which deletes all `wal-N` keys) was taken. -/
+theorem wal_snapshot_safe_iff {e : Wal.Ent T} {cur : WVer T} (h : WInv e cur) (i : Nat) :
+    (∀ j, (Wal.getLatest (Wal.updateSnapshot e i).1 j).2 = .ok cur) ↔ othersCurrent e i :=
+  snapshot_safe_iff h i
 
 /-- The live value is reached from the stored snapshot through the stored change sets, and
 no change set is left over beyond it (nothing to replay twice, nothing lost). -/
